@@ -27,6 +27,8 @@ func main() {
 		runEpochs(*seed, *n, *dir)
 	case "accum":
 		runAccum(*seed, *n, *dir)
+	case "clmath":
+		runCLMath(*seed, *n, *dir)
 	case "sumtree":
 		runSumTree(*seed, *n, *dir)
 	default:
